@@ -386,7 +386,7 @@ def run_tlc(
         jopts += " -Dtlc2.tool.queue.IStateQueue=StateDeque"
     cmd = [
         "java",
-        "-XX:+UseParallelGC",
+        "-XX:+UseParallelGC", "-Xss64m",
         "-Xmx" + heap,
         "-Djava.io.tmpdir=" + rundir,
     ]
